@@ -22,6 +22,7 @@ fn real_main() {
     match args.cmd.as_str() {
         "c21" => c21::run(&mut args),
         "noop" => {}
+        "bench" => c21::bench(&args),
         other => {
             eprintln!("extcheck: unknown sub-command {:?} (expected c21)", other);
             std::process::exit(3);
